@@ -28,8 +28,13 @@ mod similar {
         /// the tiling of the ops (an earlier version of this file assumed that the ops tile the new
         /// string left to right ordered by `new_index`; that is FALSE for similar 2.7.0, e.g.
         /// `from_chars("abab", "bb b")` — found by a bounded harness on the real crate).
+        /// C04 ("terminates promptly"): the character diff is quadratic in the worst case (measured:
+        /// a 60,000-char line > 300 s), so the stand-in may only be called on bounded input — an
+        /// obligation of the caller, not an assumption.
         #[verifier::external_body]
         pub fn from_chars(old: &str, new: &str) -> (r: TextDiff)
+            requires
+                old.len() + new.len() <= 4096, // [similar.from_chars.pre.bounded_input]
             ensures
                 forall|i: int| 0 <= i < r.spec_ops().len() ==> op_new_end_fits(#[trigger] r.spec_ops()[i]),
         { unimplemented!() }
